@@ -32,8 +32,16 @@ def chain_universe(L, oids, coefs, qs):
 def record_compile(ptn, L, idoid, chains, phys=None):
     """chains: list of dicts.  phys: None or dict(qd, opmap {oid: int matrix}) for the MPO stage."""
     og = ptn.opgraph
-    tr = [dict(ev='chains', L=L, idoid=idoid, chains=chains)]
+    tr = [dict(ev='chains', L=L, idoid=idoid, chains=chains, padded=[])]
     try:
+        for c in chains:
+            oc = ptn.OpChain(list(c['oids']), list(c['qnums']), float(c['coeff']), c['istart'])
+            pc = oc.padded(L, idoid)
+            shifted = ptn.OpChain(list(c['oids']), list(c['qnums']), float(c['coeff']), c['istart'] + 1)
+            tr[0]['padded'].append(dict(oids=[int(x) for x in pc.oids], qnums=[int(x) for x in pc.qnums], istart=int(pc.istart),
+                                        coeff=snap_int(pc.coeff, what='coeff'),
+                                        eq_self=bool(oc == ptn.OpChain(list(c['oids']), list(c['qnums']), float(c['coeff']), c['istart'])),
+                                        eq_shifted=bool(oc == shifted)))
         def mk_part(orig):
             def part(hcs, coeffs):
                 g = None
